@@ -164,12 +164,31 @@ func (t *FnTrans) binop(op token.Token, a, b Val) Val {
 func x0IsLit(a, b Val) bool { return true }
 
 func (t *FnTrans) addIdx(a, b string) string {
+	if x, ok := t.smtConstInt(a); ok {
+		if y, ok := t.smtConstInt(b); ok {
+			return t.mode.intLit64(int64(x+y), 64)
+		}
+		if x == 0 {
+			return b
+		}
+	}
+	if y, ok := t.smtConstInt(b); ok && y == 0 {
+		return a
+	}
 	if t.mode == ModeInt {
 		return sx("+", a, b)
 	}
 	return sx("bvadd", a, b)
 }
 func (t *FnTrans) subIdx(a, b string) string {
+	if y, ok := t.smtConstInt(b); ok {
+		if x, ok := t.smtConstInt(a); ok && x >= y {
+			return t.mode.intLit64(int64(x-y), 64)
+		}
+		if y == 0 {
+			return a
+		}
+	}
 	if t.mode == ModeInt {
 		return sx("-", a, b)
 	}
